@@ -14,6 +14,17 @@ CHECKS = {
     note=('Trusted: Coq kernel; extraction (ExtrOcamlBasic); OCaml driver and Python harness (unverified glue). '
           'Modelled, not verified: _exec_print, gen_print_stmt, format_number. The PRINT grammar is covered by the correspondence only.'),
     technique='Rocq proof over hand-written Gallina model + differential correspondence against the implementation'),
+ 'C07': dict(
+    category='proof',
+    text=('Rocq theorems about an executable model of the whole QVM (Models/Machine.v, Cpu.v: every _exec_*, tick, _trap, all devices; every host exception of the Python is an explicit Crash outcome): '
+          'an interrupt raised at ANY state with no handler armed halts with KEYBOARD_INTERRUPT leaving pc, stack, memory and device trace untouched (for every module and state, hence every instruction boundary); '
+          'a trap with no handler halts with its code; cause->category lemmas (division by zero, overflow, illegal argument, out of DATA); the full statement "no Crash is reachable" is refuted by witness on the faithful model (known findings). '
+          'The model is tied to qvm/cpu.py by T-isa (one tick of every opcode on constructed states, all operand-type tuples incl. ill-typed, boundary values, handler/interrupt matrix: complete final state compared) and T-run '
+          '(corpus + error-provoking programs at six configurations, interrupt injected at every instruction boundary), with the direct oracle "no host exception escapes tick(), trap code = cause".'),
+    design_ref='DESIGN.md 5/C07',
+    note=('Trusted: Coq kernel, extraction (ExtrOcamlBasic), OCaml driver, Python harness incl. state construction on the real QvmCpu. Modelled, not verified: qvm/cpu.py, cell.py, machine.py. '
+          'Not modelled: OS signal delivery (the flag is set directly), float ** with non-integer/large exponents (excluded, counted). The unguarded totality statement is false on the unchanged tree: see KNOWN_FINDINGS.'),
+    technique='Rocq proof over a hand-written executable machine model + differential correspondence (single-step and whole-run) against the implementation'),
 }
 
 ALL = ['C%02d' % i for i in range(1, 21)]
